@@ -77,8 +77,9 @@ SPEC = {
     "id": "C09",
     "gens": ["FmtTables", "ParseTables", "SyntaxTables", "LexTables"],
     "lean_modules": ["RsslVerif.Thm.C09", "RsslVerif.Thm.C10"],
-    "level_note": "roundtrip_expr_partial: WF excludes LitOk-failing literals only; casts, sizeof, template "
-                  "arguments, braced init, statements and declarators are reached by the correspondence run only",
+    "level_note": "roundtrip_xexpr_partial / roundtrip_stmt_partial / roundtrip_decl_partial: WF / WFS / WFVarDef are decidable "
+                  "syntactic carve-outs (notes/C09.md); function definitions, structs and literal text are reached by the "
+                  "correspondence run only",
     "theorems": [T + n for n in [
         "binToks_lexes", "unTok_lexes", "tables_agree", "assoc_agrees", "ternary_level", "unary_tables_agree",
         "glue_prefix_prefix", "glue_postfix_next", "glue_needs_space", "paren_rule_matches_grammar",
@@ -102,33 +103,48 @@ SPEC = {
     "harness_args": harness_args,
     "nontrivial": nontrivial,
     "finding_key": finding_key,
-    "level_text": "Proof (expression level): the formatter model (format_subexpression with the generated precedence / "
-                  "associativity / side tables) and the parser model (expr_p1..p15 with the generated parse_op arms) are proved "
-                  "inverse by structural induction for every tree over literals, identifiers, all unary and binary operators, "
-                  "the conditional, member access, subscripts and calls, at every nesting depth and in front of every expression "
-                  "terminator; the table-level obligations (precedence <-> level, associativity, spelling <-> tokens, operator "
-                  "glue) are decided over the regenerated tables. Casts, sizeof, template arguments, literals' text "
-                  "and statements/declarators are covered by the correspondence run only.",
-    "rule": "requests = (context, expression tree) built directly as rssl_ast values, printed by the real "
-            "rssl_formatter::format (HLSL) inside `return e;` / `e;` / `int v = e;` / `g(e)` / `g[e]`, re-read by the real "
-            "preprocess_fragment + prepare_tokens + parse, locations stripped, ambiguous parse branches resolved with the "
-            "type names of the original tree; oracle = same tree and identical second print. Streams: exhaustive depth<=3 "
-            "over 3 leaves x 6 unary x 12 binary operators + ternary/subscript/member/call; random depth 2-6 over all "
-            "operators; random with exporter-only shapes (negative literals, casts, sizeof, template arguments, braced init). "
-            "non-trivial = at least two operator nodes",
+    "level_text": "Proof: the formatter models (format_subexpression, format_type_id, format_declarator, format_statement, "
+                  "format_variable_definition, format_initializer, format_attribute, with the generated precedence / associativity / "
+                  "side / modifier / keyword tables) and the parser models (expr_p1..p15 with the generated parse_op arms, cast, "
+                  "sizeof, template arguments, expression-or-type, type ids, declarators, parse_statement_kind, statement_block, "
+                  "parse_vardef, parse_initializer, attributes) are proved inverse by mutual structural induction: for every "
+                  "expression tree over all node kinds except BracedInit (roundtrip_expr_partial on the first model, "
+                  "roundtrip_xexpr_partial with casts / sizeof / template arguments / type ids), every statement tree of every kind "
+                  "with attributes (roundtrip_stmt_partial, roundtrip_block_partial) and every local variable definition with "
+                  "pointer / reference / array declarators and aggregate initialisers (roundtrip_decl_partial), at every nesting "
+                  "depth, for every set of type names. The carve-outs (WF, WFS, WFVarDef) are decidable and syntactic; for the shapes "
+                  "they exclude that really fail (operators exposed in template / sizeof arguments, a < b > (c), dangling else, comma "
+                  "in attribute arguments) the negation is proved with a witness. Table-level obligations (precedence <-> level, "
+                  "associativity, spelling <-> tokens, operator glue, modifier spelling <-> keyword <-> parser arm) are decided over "
+                  "the regenerated tables, and 62 hand-modelled functions are fingerprinted. Function definitions, structs, enums "
+                  "and the text of literals are covered by the correspondence run (and C10's cited theorems) only.",
+    "rule": "requests = (context, expression tree) / statement tree built directly as rssl_ast values, or random source "
+            "modules; printed by the real rssl_formatter::format (HLSL), re-read by the real preprocess_fragment + prepare_tokens "
+            "+ parse, locations stripped, ambiguous parse branches / ambiguous statements resolved with the type names of the "
+            "original tree; oracle = same tree and identical second print. Streams: exhaustive depth<=3 over 3 leaves x 6 unary x "
+            "12 binary operators + ternary/subscript/member/call; random depth 2-6 over all operators in 5 contexts; random with "
+            "exporter-only shapes; casts / sizeof / template calls over types with all modifiers, nested template arguments and "
+            "declarators; literals of every kind over the whole value range; statement trees of random programs; random source "
+            "modules (statements, declarators, functions with attributes / templates / semantics / defaults, structs with "
+            "methods and base types, enums, cbuffers, namespaces, resource globals). non-trivial = at least two operator nodes",
     "trusted_base": [
         "Lean 4.33 kernel; axioms propext / Classical.choice / Quot.sound only (audited by #print axioms)",
-        "tools/gens/c09.py (FmtTables: operator enums, get_expression_precedence, get_precedence_associativity, the "
-        "requires_paren rule, sign characters, child (precedence, side) constants, spellings; ParseTables: Token enum, lexer "
-        "symbol tables, unaryop_prefix, every expr_pN::parse_op arm list with guards, shape checks of expr_p1/p2/p13/p14) — "
-        "re-run on /repo's working tree every time",
-        "hand-written Model/Format.lean (format_subexpression, format_literal subset) and Model/Parse.lean (expr_p1..p15) — "
-        "tied to the code by the correspondence run only",
-        "Rust f32/f64 Display (shortest round trip) and the lexer's literal reading (C10)",
+        "tools/gens/c09.py (FmtTables, ParseTables as before; SyntaxTables: TypeModifier variants and Debug spellings, lexer "
+        "keyword table, parse_type_modifiers_before/after arms, cast / sizeof / call arms and alternative orders (shape "
+        "checks), sha256 fingerprints of 62 hand-modelled functions) - re-run on /repo's working tree every time",
+        "hand-written Model/Format.lean, Model/Parse.lean (first model), Model/FormatFull.lean, Model/ParseFull.lean (casts, "
+        "sizeof, template arguments, types, declarators), Model/FormatStmt.lean, Model/ParseStmt.lean (statements, local "
+        "definitions) - tied to the code by the fingerprints and the correspondence run",
+        "Rust f32/f64 Display (shortest round trip) and the lexer's literal reading (C10, whose literal theorems are cited)",
     ],
     "assumptions": [
         "a scoped identifier and a literal are single abstract tokens in the model",
-        "the parser model omits casts, sizeof, template arguments and expr_p1_call's template-argument attempt; "
-        "requests where they matter are answered `unsupported` by the model and judged by the oracle only",
+        "select (longest match) is modelled as: the cast alternative of expr_p2 when it succeeds, else expr_p1 - the two "
+        "agree unless `( X )` + postfix operators reaches further than a successful `( T )` operand (argued in notes, never "
+        "observed in 523 k thorough cases); how far a failed alternative got is not represented (failures are `none`)",
+        "type names: the model is run with the set W of names that are types; the real parser returns all readings and the "
+        "type checker picks with W (the harness resolves the same way)",
+        "white space of statements is compared collapsed; BracedInit, attributes on declarators, location annotations of "
+        "locals and StaticSampler are answered `unsupported` by the model and judged by the oracle only",
     ],
 }
